@@ -374,13 +374,13 @@ def t_augassign(name, path, cls, fn, obj, attr):
     return 'Definition %s (niterations : Z) %s : Z := a_%s + %s.' % (name, tr.signature(), attr, e)
 
 
-def t_local(name, path, cls, fn, var):
+def t_local(name, path, cls, fn, var, obj='self'):
     """the single top-level assignment `var = e` of a function"""
     f = find_func(path, cls, fn)
     asg = [n for n in f.body if isinstance(n, ast.Assign) and len(n.targets) == 1 and isinstance(n.targets[0], ast.Name) and n.targets[0].id == var]
     if len(asg) != 1:
         raise Untranslatable('%s.%s: expected exactly one `%s = ...`' % (cls, fn, var))
-    tr = Tr(cls, {})
+    tr = Tr(cls, {}, (), obj)
     e = tr.expr(asg[0].value, {})
     return 'Definition %s %s : Z := %s.' % (name, tr.signature(), e)
 
@@ -491,6 +491,9 @@ def targets():
                                         allow_prefix_loop=True, body_is_call='swap_temperatures'))
     PTC = 'epsie/chain/ptchain.py'
     add('src_swap_ii', lambda: t_local('src_swap_ii', PTC, 'ParallelTemperedChain', 'swap_temperatures', 'ii'))
+    # the annealer: its decay clock and the row of acceptance ratios it reads, as functions of the chain's counters
+    add('src_ann_clock', lambda: t_local('src_ann_clock', PTC, 'DynamicalAnnealer', '__call__', 'iteration', obj='chain'))
+    add('src_ann_row', lambda: t_local('src_ann_row', PTC, 'DynamicalAnnealer', '__call__', 'row', obj='chain'))
     add('src_swap_row', lambda: t_store_index('src_swap_row', PTC, 'ParallelTemperedChain', 'swap_temperatures',
                                               ['_temperature_acceptance', '_temperature_swaps'], 'ii'))
     add('src_swaps_view_rows', lambda: t_view_upper('src_swaps_view_rows', PTC, 'ParallelTemperedChain', 'temperature_swaps', '_temperature_swaps'))
